@@ -12,7 +12,7 @@
              table): it must be the same multiset
    Observation of the implementation: T [L terminated; T delivered ids]. *)
 From Coq Require Import List NArith Bool Arith.
-From AdltV Require Import Base.Obs Pipe.Kahn.
+From AdltV Require Import Base.Obs Pipe.Kahn Pipe.Loss.
 Import ListNotations.
 Open Scope N_scope.
 
@@ -41,12 +41,12 @@ Definition table_stage (policy : N) (rows : list trow) (fl : list N) : @stage tm
                    end
        end |}.
 
-Definition case_C13 :=
+Definition pipe_case :=
   (list N * option N * list N * list N * list (N * list trow * list N) * bool)%type.
 
 Definition nat_caps (l : list N) : list nat := map N.to_nat l.
 
-Definition build (c : case_C13) : @pipe tmsg tst * list (@stage tmsg tst) :=
+Definition build (c : pipe_case) : @pipe tmsg tst * list (@stage tmsg tst) :=
   let '(caps, dropat, sched, input, stages, exact) := c in
   let gs := map (fun '(pol, rows, fl) => table_stage pol rows fl) stages in
   let cap0 := match caps with c0 :: _ => N.to_nat c0 | [] => 1%nat end in
@@ -54,18 +54,18 @@ Definition build (c : case_C13) : @pipe tmsg tst * list (@stage tmsg tst) :=
   let gsc := combine gs (rest ++ repeat 1%nat (length gs - length rest)) in
   (init_pipe ([], []) input cap0 gsc, gs).
 
-Definition fuel_of (c : case_C13) : nat :=
+Definition fuel_of (c : pipe_case) : nat :=
   let '(caps, dropat, sched, input, stages, exact) := c in
   (40 * (length input + 4) * (length stages + 2) + 100)%nat.
 
-Definition model_run (c : case_C13) : bool * list N :=
+Definition model_run (c : pipe_case) : bool * list N :=
   let '(caps, dropat, sched, input, stages, exact) := c in
   let '(p0, _) := build c in
   let s := map N.to_nat sched in
   let '(p, fin) := exec (fuel_of c) (option_map N.to_nat dropat) s s p0 in
   (fin && all_done p, delivered p).
 
-Definition run_C13 (c : case_C13) : otree :=
+Definition run_pipe (c : pipe_case) : otree :=
   let '(t, d) := model_run c in T [ob t; T (map L d)].
 
 Fixpoint nins (m : N) (l : list N) : list N :=
@@ -96,7 +96,7 @@ Fixpoint onums (l : list otree) : option (list N) :=
   | _ => None
   end.
 
-Definition agree_C13 (c : case_C13) (o : otree) : bool :=
+Definition agree_pipe (c : pipe_case) (o : otree) : bool :=
   let '(caps, dropat, sched, input, stages, exact) := c in
   let '(t, d) := model_run c in
   let '(_, gs) := build c in
@@ -113,4 +113,76 @@ Definition agree_C13 (c : case_C13) (o : otree) : bool :=
       else (length od =? length d)%nat && nodup_sorted (nsort od) && sub_sorted (nsort od) (nsort full)
     end
   | _ => false
+  end.
+
+(* ---------------------------------------------------------------------------------------------------
+   Loss cases: ONE real stage function, a lock-step live producer (it hands message i+1 only when the stage sits
+   in recv() again, and stops when its send fails or its budget [n] is used up), and a closure outflow that
+   accepts k messages and fails from then on, for every k of [ks].
+     policy 1 = lifecycle detection: rows = per input (id, messages popped by the drain loops, direct forward),
+                recorded exactly (lock-step) in the undisturbed run; inputs beyond the table are forwarded directly
+     policy 0 = plugins / sort / filter (return on the first failed send)
+   Observation per k: T [L returned before the budget ended; L messages pulled; L 1 + iteration of the first failed
+   send (0 = none; the last iteration and the final flush are not told apart); L number of delivered messages;
+   L checksum of their ids]. *)
+Definition lrow := (N * list N * option N)%type.
+Definition loss_case := (N * N * list lrow * list N * list N)%type.
+
+(* current row's direct forward (between drain and bottom), remaining rows, flush outputs *)
+Definition zst := (option (option N) * list lrow * list N)%type.
+Definition table_sstage (rows : list lrow) (fl : list N) : @sstage N zst :=
+  {| z_init := (None, rows, fl);
+     z_drain := fun s m =>
+       match snd (fst s) with
+       | (e, dr, d) :: r => if e =? m then ((Some d, r, snd s), dr) else ((Some None, r, snd s), [poison])
+       | [] => ((Some (Some m), [], snd s), [])
+       end;
+     z_keep := fun s _ => s;
+     z_bottom := fun s m =>
+       match fst (fst s) with
+       | Some d => ((None, snd (fst s), snd s), d)
+       | None => (s, Some poison)
+       end;
+     z_flush := fun s => match snd (fst s) with [] => snd s | _ => snd s end |}.
+
+Definition abort_rows (rows : list lrow) : list trow :=
+  map (fun '(e, dr, d) => (e, dr ++ match d with Some x => [x] | None => [] end)) rows.
+
+Definition loss_obs (n : nat) (r : @lres N) : otree :=
+  T [ob (l_returned_early r && (l_consumed r <? n)%nat);
+     L (N.of_nat (l_consumed r));
+     L (match l_first_fail r with None => 0 | Some i => 1 + N.of_nat (Nat.min i (n - 1)) end);
+     L (N.of_nat (length (l_delivered r)));
+     L (fold_left (fun acc x => (acc * 31 + x + 1) mod 1000003) (l_delivered r) 0)].
+
+Definition loss_model (c : loss_case) : list otree :=
+  let '(policy, n, rows, fl, ks) := c in
+  let nn := N.to_nat n in
+  let inputs := map N.of_nat (seq 0 nn) in
+  map (fun k =>
+         loss_obs nn (match policy with
+                      | 0 => loss_run (table_stage 0 (abort_rows rows) fl) inputs (N.to_nat k)
+                      | _ => z_run (table_sstage rows fl) inputs (N.to_nat k)
+                      end)) ks.
+
+(* the site model and the stage of the pipeline model built from it agree on this case (instance of kahn_of_refines) *)
+Definition loss_selfcheck (c : loss_case) : bool :=
+  let '(policy, n, rows, fl, ks) := c in
+  let inputs := map N.of_nat (seq 0 (N.to_nat n)) in
+  match policy with
+  | 0 => true
+  | _ => forallb (fun k =>
+           let a := z_run (table_sstage rows fl) inputs (N.to_nat k) in
+           let b := loss_run (kahn_of (table_sstage rows fl)) inputs (N.to_nat k) in
+           (l_consumed a =? l_consumed b)%nat && list_eqb (l_delivered a) (l_delivered b) &&
+           Bool.eqb (l_returned_early a) (l_returned_early b)) ks
+  end.
+
+Definition case_C13 := (pipe_case + loss_case)%type.
+Definition run_C13 (c : case_C13) : otree :=
+  match c with inl p => run_pipe p | inr l => T (loss_model l) end.
+Definition agree_C13 (c : case_C13) (o : otree) : bool :=
+  match c with
+  | inl p => agree_pipe p o
+  | inr l => loss_selfcheck l && otree_eqb (T (loss_model l)) o
   end.
